@@ -568,3 +568,15 @@ func vh_C12_L4_init_unknown_parameter_is_skipped() {
 	vassert(foundCookie == ack, "the state cookie is found exactly when it was sent")
 	vcover("end")
 }
+
+// C12.L5: the largest chunk the encoders accept fits the 16-bit chunk length field: the
+// per-chunk entry limits are derived so that header + fixed part + entries <= 65535.
+func vh_C12_L5_entry_limits_fit_length_field() {
+	vassert(chunkHeaderSize+newCumulativeTSNLength+maxIForwardTSNStreams*iForwardTSNEntryLength <= 65535, "an I-FORWARD-TSN with the maximum number of entries fits the 16-bit chunk length")
+	n := maxIForwardTSNStreams
+	c := &chunkIForwardTSN{newCumulativeTSN: nondetU32()}
+	_ = n
+	abort, err := c.check()
+	vassert(!abort && err == nil, "an empty I-FORWARD-TSN is valid")
+	vcover("end")
+}
